@@ -7,6 +7,7 @@ From Coq Require Import List ZArith Bool.
 From Coq Require Floats.
 From Coq Require Import Reals.
 From LN Require Import C07_Defs C07_Statements C07_Proofs C07_MT C07_CG C07_Budget C07_Real.
+From LN Require Import C07_Sign C07_Init_Defs C07_Init_Statements C07_Init.
 Import ListNotations.
 Import PrimFloat.PrimFloatNotations.   (* notations only: the primitives print as PrimFloat.* in Print Assumptions *)
 Local Open Scope float_scope.
@@ -312,4 +313,259 @@ Proof. vm_compute. repeat split; reflexivity. Qed.
 Example C07_nonvacuous_refusal :
   (pg p0_flat <? fzero) = false /\ (pg p0_nan <? fzero) = false /\ (pg p0_parab <? fzero) = true /\
   ok (ls_get phi_parab (prm_default 128) p0_nan Fletcher fone) = false.
+Proof. vm_compute. repeat split; reflexivity. Qed.
+
+(* ====================================================================================================================
+   INIT extension: the step-length initialisers lsearch0_t (src/lsearch0/*.cpp) and lsearch_t::get (src/solver/lsearch.cpp)
+   Model: C07_Init_Defs (lsearch0_get / lsearch_get / lsearch_run); every comparison and formula is translated from the
+   sources on every run. `tr` is the value-only evaluation oracle of lsearch0-cgdescent (step |-> value), `m` the mutable
+   members (m_prevf, m_prevdg), `last` = last_step_size, `v` the view of (state, descent): origin probe + |x|_inf, |g|_inf, g.g.
+   Every theorem is for ALL oracles, memories, views, last_step_size (NaN / inf included) unless a hypothesis says otherwise.
+   ==================================================================================================================== *)
+
+(* (2) constant: t0 is the parameter -- no evaluation, members untouched, and in every run, after every history *)
+Theorem C07_init_constant : forall prm0 prm a tr m v last its st,
+  lsearch0_get prm0 tr L0Constant m v last = mkIR (l0_const_t0 prm0) m 0%Z None /\
+  Forall (fun o => ir_t0 (io_init o) = l0_const_t0 prm0 /\ ir_evals (io_init o) = 0%Z)
+         (fst (lsearch_run L0Constant prm0 prm a its st)).
+Proof. intros. split; [apply init_constant_spec|apply run_constant]. Qed.
+Print Assumptions C07_init_constant.
+
+(* (2) linear / quadratic: the closed forms with libstdc++'s std::min / std::max (fmin a b = (b < a) ? b : a,
+   fmax a b = (a < b) ? b : a, in the source's argument order) and the members afterwards: linear reads the CURRENT dg and
+   the previous one, quadratic reads the PREVIOUS (f, dg) and the current f; both store the current values AFTER t0 *)
+Theorem C07_init_linear_quadratic_closed_form : forall prm0 tr m v last,
+  lsearch0_get prm0 tr L0Linear m v last =
+    mkIR (if last <? fzero then fone
+          else fmin fone ((- l0_lin_alpha prm0 * fmax (- last * m_prevdg m) (l0_lin_beta prm0 * l0_epsilon prm0)) / pg (v_p v)))
+         (mkM0 (m_prevf m) (pg (v_p v))) 0%Z None /\
+  lsearch0_get prm0 tr L0Quadratic m v last =
+    mkIR (if last <? fzero then fone
+          else fmin fone ((- l0_quad_alpha prm0 * ftwo * fmax (m_prevf m - pf (v_p v)) (l0_quad_beta prm0 * l0_epsilon prm0)) / m_prevdg m))
+         (mkM0 (pf (v_p v)) (pg (v_p v))) 0%Z None.
+Proof. intros. split; [apply init_linear_spec|apply init_quadratic_spec]. Qed.
+Print Assumptions C07_init_linear_quadratic_closed_form.
+
+(* (2) the closed form over a HISTORY: after any run that ends with iteration it1 (any oracles, successes or failures),
+   the next t0 is computed from it1's (fx, dg), the step it1's line search handed back and the new state *)
+Theorem C07_init_history_closed_form : forall prm0 prm a pre it1 it2 st,
+  (let '(os, st1) := lsearch_run L0Quadratic prm0 prm a (pre ++ [it1]) st in
+   exists os' o1, os = os' ++ [o1] /\
+     ir_t0 (io_init (fst (lsearch_get L0Quadratic prm0 prm a it2 st1))) =
+     (if rt (io_res o1) <? fzero then fone
+      else fmin fone ((- l0_quad_alpha prm0 * ftwo *
+                       fmax (pf (v_p (it_view it1)) - pf (v_p (it_view it2))) (l0_quad_beta prm0 * l0_epsilon prm0)) /
+                      pg (v_p (it_view it1))))) /\
+  (let '(os, st1) := lsearch_run L0Linear prm0 prm a (pre ++ [it1]) st in
+   exists os' o1, os = os' ++ [o1] /\
+     ir_t0 (io_init (fst (lsearch_get L0Linear prm0 prm a it2 st1))) =
+     (if rt (io_res o1) <? fzero then fone
+      else fmin fone ((- l0_lin_alpha prm0 * fmax (- rt (io_res o1) * pg (v_p (it_view it1))) (l0_lin_beta prm0 * l0_epsilon prm0)) /
+                      pg (v_p (it_view it2))))).
+Proof.
+  intros. split; [exact (run_quadratic_history prm0 prm a pre it1 it2 st)|exact (run_linear_history prm0 prm a pre it1 it2 st)].
+Qed.
+Print Assumptions C07_init_history_closed_form.
+
+(* members, evaluations, trial step of one call, for all four kinds *)
+Theorem C07_init_memory_and_evaluations : forall prm0 tr k m v last,
+  let r := lsearch0_get prm0 tr k m v last in
+  ir_mem r = match k with L0Linear => mkM0 (m_prevf m) (pg (v_p v)) | L0Quadratic => mkM0 (pf (v_p v)) (pg (v_p v)) | _ => m end /\
+  ir_evals r = match k with L0CGDescent => if last <? fzero then 0%Z else 1%Z | _ => 0%Z end /\
+  ir_trial r = match k with L0CGDescent => if last <? fzero then None else Some (last * l0_cg_phi1 prm0) | _ => None end /\
+  (0 <= ir_evals r <= 1)%Z.
+Proof. intros. repeat split; [apply init_mem|apply init_evals|apply init_trial|apply init_evals_le1|apply init_evals_le1]. Qed.
+Print Assumptions C07_init_memory_and_evaluations.
+
+(* (1) linear: alpha > 0, beta * epsilon > 0 (as computed in binary64), dg < 0  =>  0 <= t0 <= 1 -- hence finite, never NaN --
+   for every memory and last_step_size. (Both hypotheses hold on the registered domains alpha, beta > 1, 0 < epsilon.) *)
+Theorem C07_init_linear_range : forall prm0 tr m v last,
+  (fzero <? l0_lin_alpha prm0) = true -> (fzero <? l0_lin_beta prm0 * l0_epsilon prm0) = true ->
+  (pg (v_p v) <? fzero) = true ->
+  let t0 := ir_t0 (lsearch0_get prm0 tr L0Linear m v last) in
+  (fzero <=? t0) = true /\ (t0 <=? fone) = true.
+Proof. exact linear_range. Qed.
+Print Assumptions C07_init_linear_range.
+
+(* (1) quadratic divides by the PREVIOUS call's dg: first call (last_step_size < 0) or m_prevdg < 0; the current dg is not used *)
+Theorem C07_init_quadratic_range : forall prm0 tr m v last,
+  (fzero <? l0_quad_alpha prm0) = true -> (fzero <? l0_quad_beta prm0 * l0_epsilon prm0) = true ->
+  (last <? fzero) = true \/ (m_prevdg m <? fzero) = true ->
+  let t0 := ir_t0 (lsearch0_get prm0 tr L0Quadratic m v last) in
+  (fzero <=? t0) = true /\ (t0 <=? fone) = true.
+Proof. exact quadratic_range. Qed.
+Print Assumptions C07_init_quadratic_range.
+
+(* (1) over whole runs of a fresh lsearch_t (m_last_step_size = -1, members at their initialisers): along descent
+   directions EVERY t0 lies in [0, 1], whatever the objective does (any probe / trial oracle, failed searches included):
+   the invariant "first call or m_prevdg < 0" is maintained by every call *)
+Theorem C07_init_run_range : forall k prm0 prm a its,
+  (k = L0Linear /\ (fzero <? l0_lin_alpha prm0) = true /\ (fzero <? l0_lin_beta prm0 * l0_epsilon prm0) = true) \/
+  (k = L0Quadratic /\ (fzero <? l0_quad_alpha prm0) = true /\ (fzero <? l0_quad_beta prm0 * l0_epsilon prm0) = true) ->
+  Forall (fun it => (pg (v_p (it_view it)) <? fzero) = true) its ->
+  Forall (fun o => (fzero <=? ir_t0 (io_init o)) = true /\ (ir_t0 (io_init o) <=? fone) = true)
+         (fst (lsearch_run k prm0 prm a its (lsmem_init k))).
+Proof. exact run_range_from_init. Qed.
+Print Assumptions C07_init_run_range.
+
+(* without any hypothesis: linear / quadratic never return NaN or a value above 1 (std::min(1.0, NaN) = 1.0) *)
+Theorem C07_init_linear_quadratic_le_one : forall prm0 tr k m v last,
+  k = L0Linear \/ k = L0Quadratic -> (ir_t0 (lsearch0_get prm0 tr k m v last) <=? fone) = true.
+Proof. exact linear_quadratic_le1. Qed.
+Print Assumptions C07_init_linear_quadratic_le_one.
+
+(* (2) cgdescent: the three-way split of the first call (x != 0 / f != 0 / else 1), no evaluation ... *)
+Theorem C07_init_cgdescent_first_call : forall prm0 tr m v last,
+  (last <? fzero) = true ->
+  let r := lsearch0_get prm0 tr L0CGDescent m v last in
+  ir_evals r = 0%Z /\ ir_trial r = None /\ ir_mem r = m /\
+  (((fzero <? v_xinf v) = true /\ ir_t0 r = l0_cg_phi0 prm0 * v_xinf v / v_ginf v) \/
+   ((fzero <? v_xinf v) = false /\ (fzero <? abs (pf (v_p v))) = true /\ ir_t0 r = l0_cg_phi0 prm0 * abs (pf (v_p v)) / v_gsq v) \/
+   ((fzero <? v_xinf v) = false /\ (fzero <? abs (pf (v_p v))) = false /\ ir_t0 r = fone)).
+Proof. exact cg_first_cases. Qed.
+Print Assumptions C07_init_cgdescent_first_call.
+
+(* ... and of every later call: exactly one value-only evaluation at s = last * phi1; the minimiser of the quadratic through
+   (0, fx) with slope dg and (s, f(s)) is taken iff f(s) < fx and the interpolant is strongly convex ((0 - s) * dg - (fx - f(s)) > 0),
+   otherwise last * phi2 *)
+Theorem C07_init_cgdescent_later_calls : forall prm0 tr m v last,
+  (last <? fzero) = false ->
+  let r := lsearch0_get prm0 tr L0CGDescent m v last in
+  let s := last * l0_cg_phi1 prm0 in
+  let fx := pf (v_p v) in
+  let dg := pg (v_p v) in
+  ir_evals r = 1%Z /\ ir_trial r = Some s /\ ir_mem r = m /\
+  (((tr s <? fx) = true /\ (fzero <? (fzero - s) * dg - (fx - tr s)) = true /\
+    ir_t0 r = fzero - half * dg * (fzero - s) / (dg - (fx - tr s) / (fzero - s))) \/
+   (((tr s <? fx) = false \/ (fzero <? (fzero - s) * dg - (fx - tr s)) = false) /\ ir_t0 r = last * l0_cg_phi2 prm0)).
+Proof. exact cg_later_cases. Qed.
+Print Assumptions C07_init_cgdescent_later_calls.
+
+(* (1) cgdescent, first call: phi0 > 0 and a non-zero gradient (0 < |g|_inf, 0 < g.g) give t0 >= 0 or NaN -- no more: *)
+Theorem C07_init_cgdescent_first_nonneg : forall prm0 tr m v last,
+  (last <? fzero) = true -> (fzero <? l0_cg_phi0 prm0) = true -> (fzero <? v_ginf v) = true -> (fzero <? v_gsq v) = true ->
+  let t0 := ir_t0 (lsearch0_get prm0 tr L0CGDescent m v last) in
+  cls t0 = CPos \/ cls t0 = CZero \/ cls t0 = CNaN.
+Proof. exact cg_first_nonneg. Qed.
+Print Assumptions C07_init_cgdescent_first_nonneg.
+
+(* (1) "valid descent state and history, parameters inside their registered domains => t0 finite and > 0" is FALSE for
+   linear, quadratic and cgdescent ... *)
+Theorem C07_init_t0_finite_positive_refuted :
+  ~ C07_init_t0_finite_positive_statement L0Linear /\ ~ C07_init_t0_finite_positive_statement L0Quadratic /\
+  ~ C07_init_t0_finite_positive_statement L0CGDescent.
+Proof. exact s_init_t0_finite_positive_refuted. Qed.
+Print Assumptions C07_init_t0_finite_positive_refuted.
+
+(* ... with these witnesses (all hypotheses of the statement hold): linear t0 = 0 (defaults, dg = -inf; or epsilon = 2^-1000 and
+   every number finite: underflow); quadratic t0 = 0 (previous dg = -2^1000 resp. -inf); cgdescent t0 = +inf (first call,
+   phi0 * |x|_inf / |g|_inf overflows), t0 = 0 (g.g overflowed), and t0 = -inf from the interpolation branch: the convexity
+   test passes by one rounding while the denominator dg - df/dt is exactly 0 *)
+Theorem C07_init_t0_witnesses :
+  ir_t0 (lsearch0_get prm0_default (fun _ => fzero) L0Linear (mkM0 fzero f_mone) w_lin_v1 fone) = fzero /\
+  ir_t0 (lsearch0_get prm0_tiny_eps (fun _ => fzero) L0Quadratic w_quad_m w_quad_v fone) = fzero /\
+  ir_t0 (lsearch0_get prm0_default (fun _ => fzero) L0Quadratic w_quad_m1 w_quad_v fone) = fzero /\
+  ir_t0 (lsearch0_get prm0_default (fun _ => fzero) L0CGDescent (mkM0 fzero fone) w_cg_v1 f_mone) = PrimFloat.infinity /\
+  ir_t0 (lsearch0_get prm0_default (fun _ => fzero) L0CGDescent (mkM0 fzero fone) w_cg_v2 f_mone) = fzero /\
+  ir_t0 (lsearch0_get prm0_tiny_eps w_cg_trial3 L0CGDescent (mkM0 fzero f_mone) w_cg_v3 (ftwo * (ftwo + fone))) = PrimFloat.neg_infinity.
+Proof. vm_compute. repeat split; reflexivity. Qed.
+Print Assumptions C07_init_t0_witnesses.
+
+(* (1)+(3) ... but lsearchk_t::get hides all of it: for EVERY t0 (NaN, +-inf, 0, negative, 1e6) the step the line search
+   actually starts from, std::isfinite(t0) ? std::clamp(t0, stpmin, 1.0) : 1.0, is finite and lies in [stpmin, 1] *)
+Theorem C07_init_step_in_range : forall t0,
+  (stpmin <=? init_step t0) = true /\ (init_step t0 <=? fone) = true /\
+  (fzero <? init_step t0) = true /\ PrimFloat.is_finite (init_step t0) = true.
+Proof.
+  intros t0. destruct (init_step_range t0) as [L U]. destruct (init_step_pos_finite t0) as [P F]. repeat split; assumption.
+Qed.
+Print Assumptions C07_init_step_in_range.
+
+(* (3) lsearch_t::get IS ls_get at the computed t0 (so every theorem above that quantifies over t0 applies to the composed
+   search), the members are those lsearch0 left, and m_last_step_size becomes the step lsearchk handed back *)
+Theorem C07_composed_refines_ls_get : forall k prm0 prm a it st,
+  let ir := lsearch0_get prm0 (it_trial it) k (lm_mem st) (it_view it) (lm_last st) in
+  let r := ls_get (it_phi it) prm (v_p (it_view it)) a (ir_t0 ir) in
+  lsearch_get k prm0 prm a it st = (mkIO ir r, mkLM (ir_mem ir) (rt r)).
+Proof. exact lsearch_get_spec. Qed.
+Print Assumptions C07_composed_refines_ls_get.
+
+(* (3) the success theorems of C07, once, for the composed search (any initialiser, any memory): valid state, last probe at
+   the returned step, the advertised conditions (backtrack / lemarechal / fletcher; More-Thuente and CG_DESCENT carry their exit
+   ghost, to which C07_morethuente_success_cases / C07_cgdescent_success_cases apply through the refinement equation), the
+   direction was a descent direction, and the next lsearch0 call receives exactly the returned step *)
+Theorem C07_composed_success : forall k prm0 prm a it st,
+  (0 < maxit prm)%Z ->
+  let o := fst (lsearch_get k prm0 prm a it st) in
+  let st' := snd (lsearch_get k prm0 prm a it st) in
+  let r := io_res o in
+  let p0 := v_p (it_view it) in
+  ok r = true ->
+  pv (cur (rs r)) = true /\
+  (exists rest, trace (rs r) = rt r :: rest /\ cur (rs r) = it_phi it (Z.of_nat (length rest)) (rt r)) /\
+  match a with
+  | Backtrack => (pf (cur (rs r)) <=? pf p0 + rt r * c1 prm * pg p0) = true
+  | Lemarechal => (pf (cur (rs r)) <=? pf p0 + rt r * c1 prm * pg p0) = true /\ (c2 prm * pg p0 <=? pg (cur (rs r))) = true
+  | Fletcher => (pf (cur (rs r)) <=? pf p0 + rt r * c1 prm * pg p0) = true /\
+                (abs (pg (cur (rs r))) <=? c2 prm * abs (pg p0)) = true
+  | MoreThuente => exists m, rx r = XMT m
+  | CGDescent => exists iv b, rx r = XCG iv b
+  end /\
+  lm_last st' = rt r /\ (pg p0 <? fzero) = true.
+Proof. exact composed_success. Qed.
+Print Assumptions C07_composed_success.
+
+(* a refused direction costs nothing and hands t0 itself -- whatever it is -- to the next lsearch0 call *)
+Theorem C07_composed_refusal : forall k prm0 prm a it st,
+  (pg (v_p (it_view it)) <? fzero) = false ->
+  let o := fst (lsearch_get k prm0 prm a it st) in
+  let st' := snd (lsearch_get k prm0 prm a it st) in
+  ok (io_res o) = false /\ cnt (rs (io_res o)) = 0%Z /\ lm_last st' = ir_t0 (io_init o).
+Proof. exact composed_refusal. Qed.
+Print Assumptions C07_composed_refusal.
+
+(* budget of one outer iteration: at most ONE evaluation by lsearch0 (the constant of notes/C02.md) + C07_evaluations_bounded;
+   of a run of n iterations: n * (1 + ls_bound) *)
+Theorem C07_composed_evaluations_bounded : forall k prm0 prm a it st its,
+  (0 < maxit prm)%Z ->
+  (0 <= iter_evals (fst (lsearch_get k prm0 prm a it st)) <= 1 + ls_bound a (maxit prm))%Z /\
+  (0 <= sum_evals (fst (lsearch_run k prm0 prm a its st)) <= Z.of_nat (length its) * (1 + ls_bound a (maxit prm)))%Z.
+Proof. intros. split; [apply composed_evals; assumption|apply run_evals; assumption]. Qed.
+Print Assumptions C07_composed_evaluations_bounded.
+
+(* what the composed search starts from: along a descent direction the first trial point is requested at
+   clamp(t0) in [stpmin, 1] (the first element of the trace of the `*0.3` loop) *)
+Theorem C07_composed_first_probe : forall k prm0 prm a it st,
+  (0 < maxit prm)%Z -> (pg (v_p (it_view it)) <? fzero) = true ->
+  let o := fst (lsearch_get k prm0 prm a it st) in
+  let start := init_step (ir_t0 (io_init o)) in
+  (stpmin <=? start) = true /\ (start <=? fone) = true /\
+  exists s1 t1, shrink (it_phi it) (fuel_of (maxit prm)) (init_state (v_p (it_view it))) start = (s1, t1) /\
+                exists pre, trace s1 = pre ++ [start].
+Proof. exact composed_first_probe. Qed.
+Print Assumptions C07_composed_first_probe.
+
+(* the translated constants: member initialisers, m_last_step_size{-1}, the trial point, the registered domains *)
+Theorem C07_init_constants_pinned :
+  (mem_init L0Linear = mkM0 fzero fone /\ mem_init L0Quadratic = mkM0 fzero fone /\ lm_last (lsmem_init L0Quadratic) = f_mone) /\
+  (forall x last phi1 d, cg0_trial_coord x last phi1 d = x + last * phi1 * d) /\
+  dom0 prm0_default = true /\ dom0 prm0_tiny_eps = true.
+Proof. split; [exact mem_init_spec|]. split; [exact trial_coord_spec|]. split; reflexivity. Qed.
+Print Assumptions C07_init_constants_pinned.
+
+(* ---------- non-vacuity of the INIT theorems ---------- *)
+(* the defaults satisfy the hypotheses of the range theorems; a two-iteration run of the composed search on (t-1)^2 along
+   descent directions: both line searches succeed, t0 = 1 then the quadratic closed form (1.01e-5 < 1: no decrease was seen) *)
+Example C07_init_nonvacuous :
+  (fzero <? l0_lin_alpha prm0_default) = true /\ (fzero <? l0_lin_beta prm0_default * l0_epsilon prm0_default) = true /\
+  (fzero <? l0_quad_alpha prm0_default) = true /\ (fzero <? l0_quad_beta prm0_default * l0_epsilon prm0_default) = true /\
+  (fzero <? l0_cg_phi0 prm0_default) = true /\ valid_descent_view w_plain_v = true /\
+  (let '(os, st) := lsearch_run L0Quadratic prm0_default (prm_default 128) Backtrack [w_plain_it (- ftwo); w_plain_it (- fone)]
+                                 (lsmem_init L0Quadratic) in
+   map (fun o => ok (io_res o)) os = [true; true] /\ map (fun o => ir_t0 (io_init o) <? fone) os = [false; true] /\
+   m_prevdg (lm_mem st) = - fone) /\
+  (let '(os, st) := lsearch_run L0CGDescent prm0_default (prm_default 128) CGDescent [w_plain_it (- ftwo); w_plain_it (- ftwo)]
+                                 (lsmem_init L0CGDescent) in
+   map (fun o => ok (io_res o)) os = [true; true] /\ map (fun o => ir_evals (io_init o)) os = [0%Z; 1%Z]) /\
+  (pg (v_p (it_view (w_plain_it fone))) <? fzero) = false.
 Proof. vm_compute. repeat split; reflexivity. Qed.
